@@ -90,7 +90,7 @@ Proof. intros H. unfold alg_texts, json_notes. rewrite H. split; reflexivity. Qe
 
 Theorem item_is_pointwise d p c n s t :
   In (c, n, s, t) (items_of d p) ->
-  alg_texts d c n = Some t /\ s = shown_name c n (pr_hostkeys p) (pr_dh p) /\ In n (match assoc c (cat_lists (pr_k p)) with Some l => l | None => [] end).
+  alg_texts d c n = Some t /\ s = display (shown_name c n (pr_hostkeys p) (pr_dh p)) /\ In n (match assoc c (cat_lists (pr_k p)) with Some l => l | None => [] end).
 Proof.
   unfold items_of. intros H. apply in_flat_map in H. destruct H as [[c0 l] [Hc H]].
   apply in_flat_map in H. destruct H as [n0 [Hn H]]. cbn [fst snd] in H.
@@ -172,3 +172,31 @@ Qed.
 Lemma status_is_function_of_items (p : peer) (d0 : db) :
   rp_status (report_of p d0) = status_fold exit_GOOD (pr_general p ++ levels_of (rp_items (report_of p d0))).
 Proof. reflexivity. Qed.
+
+(* ---------- the displayed name (fix 331ebe3): no control character reaches the text report; printable names are shown unchanged ---------- *)
+Definition is_control (c : ascii) : bool := Nat.ltb (nat_of_ascii c) 32 || Nat.eqb (nat_of_ascii c) 127.
+Lemma display_char_not_control c : is_control (display_char c) = false.
+Proof.
+  unfold display_char, is_control. destruct (Nat.ltb (nat_of_ascii c) 32 || Nat.eqb (nat_of_ascii c) 127) eqn:E; [reflexivity|exact E].
+Qed.
+Lemma chars_of_chars l : chars (of_chars l) = l.
+Proof. induction l as [|c l IH]; cbn [of_chars chars]; [reflexivity|rewrite IH; reflexivity]. Qed.
+Lemma of_chars_chars s : of_chars (chars s) = s.
+Proof. induction s as [|c s IH]; cbn [of_chars chars]; [reflexivity|rewrite IH; reflexivity]. Qed.
+Theorem display_no_control s : forallb (fun c => negb (is_control c)) (chars (display s)) = true.
+Proof.
+  unfold display. rewrite chars_of_chars. induction (chars s) as [|c l IH]; [reflexivity|].
+  cbn [map forallb]. rewrite display_char_not_control, IH. reflexivity.
+Qed.
+Theorem display_printable s : forallb (fun c => negb (is_control c)) (chars s) = true -> display s = s.
+Proof.
+  unfold display. intros H. rewrite <- (of_chars_chars s) at 2. f_equal.
+  induction (chars s) as [|c l IH]; [reflexivity|]. cbn [forallb] in H. apply andb_true_iff in H. destruct H as [Hc Hl].
+  cbn [map]. rewrite (IH Hl). f_equal. unfold display_char. unfold is_control in Hc. apply negb_true_iff in Hc. rewrite Hc. reflexivity.
+Qed.
+(* in particular no line feed: a shown name cannot start a new report line *)
+Theorem display_no_newline s : ~ In (ascii_of_nat 10) (chars (display s)) /\ ~ In (ascii_of_nat 13) (chars (display s)) /\ ~ In (ascii_of_nat 27) (chars (display s)).
+Proof.
+  pose proof (display_no_control s) as H. rewrite forallb_forall in H.
+  repeat split; intros Hin; apply H in Hin; discriminate.
+Qed.
